@@ -173,7 +173,7 @@ func runProperty(prop, tier string) int {
 		only = regexp.MustCompile(*flagOnly)
 	}
 	base := &Config{Tier: tierNum(tier), Unwind: 64, MaxSteps: 50_000_000, MaxDepth: 400, MaxDecisions: 4000, MaxSymIndex: 64,
-		MaxSymLen: 16, MaxPaths: 0, WallS: 0, Workers: *flagWorkers, QueryTimeoutS: 10, Solver: *flagSolver, Known: known,
+		MaxSymLen: 16, MaxPaths: 0, WallS: 0, Workers: *flagWorkers, QueryTimeoutS: 30, Solver: *flagSolver, Known: known,
 		Verbose: *flagVerbose, Seed: seed}
 	if tier == "thorough" {
 		base.QueryTimeoutS = 60
